@@ -159,6 +159,8 @@ def _known_matcher():
                 continue
             if m.get('job_regex') and not _re.search(m['job_regex'], rec.get('job', '')):
                 continue
+            if m.get('observed_regex') and not _re.search(m['observed_regex'], rec.get('observed', '')):
+                continue
             if m.get('py') and not core._known_py(m['py'], rec):
                 continue
             return k
